@@ -4,6 +4,11 @@ use std::io::{Read, Write};
 use crate::error::{Error, Result};
 use byteorder::{BigEndian, ReadBytesExt, WriteBytesExt};
 
+// ~ lengths and counts read off the wire are hints only: space for at
+// most this many elements/bytes is reserved up front, the rest grows
+// with the data actually decoded
+pub(crate) const MAX_PREALLOC: usize = 4096;
+
 // Helper macro to safely convert an usize expression into a signed
 // integer.  If the conversion is not possible the macro issues a
 // `CodecError`, otherwise returns the expression
@@ -211,7 +216,7 @@ impl<V: FromByte + Default> FromByte for Vec<V> {
         if length <= 0 {
             return Ok(());
         }
-        self.reserve(length as usize);
+        self.reserve(std::cmp::min(length as usize, MAX_PREALLOC));
         for _ in 0..length {
             let mut e: V = Default::default();
             e.decode(buffer)?;
@@ -233,7 +238,7 @@ impl FromByte for Vec<u8> {
         if length <= 0 {
             return Ok(());
         }
-        self.reserve(length as usize);
+        self.reserve(std::cmp::min(length as usize, MAX_PREALLOC));
         match buffer.take(length as u64).read_to_end(self) {
             Ok(size) => {
                 if size < length as usize {
